@@ -55,6 +55,28 @@ def cases(tier, rng, schema, feats):
             tree = cbor.M([(2, rng.bytes(L)), (3, 0)] + extra)
             out.append(f"C16.dec.{n}\tdec2\t0c{cbor.enc(tree).hex()}")
             n += 1
+    # members that are parsed and ignored (the legacy rp icon / url, unknown members) or copied into feature-independent buffers, with
+    # sizes at and around every constant of src/sizes.rs and its neighbours (+-1, +-64): a limit derived from a feature-dependent
+    # constant shows as the same request accepted in one build and refused in another
+    big = (0, 1, 128, 129, 255, 256, 1023, 1024, 1025, 2047, 2048, 2049, 2944, 3007, 3008, 3009, 3071, 3072, 3073, 4000, 7000, 7609)
+    ch = cbor.enc(rng.bytes(32))
+    for L in big:
+        txt = "i" * L
+        for member in ("icon", "url"):
+            rp = cbor.M([("id", "example.com"), (member, txt)])
+            out.append(f"C16.dec.{n}\tdecty\twebauthn::PublicKeyCredentialRpEntity\t{cbor.enc(rp).hex()}")
+            n += 1
+            mc = cbor.M([(1, rng.bytes(32)), (2, rp), (3, cbor.M([("id", b"\x01")])), (4, [cbor.M([("alg", -7), ("type", "public-key")])])])
+            out.append(f"C16.dec.{n}\tdec2\t01{cbor.enc(mc).hex()}")
+            n += 1
+        for val in (txt, b"\x00" * L):
+            mc = cbor.M([(1, rng.bytes(32)), (2, cbor.M([("id", "example.com")])), (3, cbor.M([("id", b"\x01"), ("zz", val)])),
+                         (4, [cbor.M([("alg", -7), ("type", "public-key")])]), (0x30, val)])
+            out.append(f"C16.dec.{n}\tdec2\t01{cbor.enc(mc).hex()}")
+            n += 1
+            ga = cbor.M([(1, "example.com"), (2, rng.bytes(32)), (0x31, val)])
+            out.append(f"C16.dec.{n}\tdec2\t02{cbor.enc(ga).hex()}")
+            n += 1
     for get in (0, 1, 255, 256, 3007, 3008, 3009, 65535, 2**32 - 1):
         out.append(f"C16.dec.{n}\tdec2\t0c{cbor.enc(cbor.M([(1, get), (3, 0)])).hex()}")
         n += 1
